@@ -89,9 +89,14 @@ func genC10(rt *rapid.T) c10Prog {
 		first := 0
 		for u := 0; u < obs; u++ {
 			if p.Sc.Sessions[u] >= 2 {
-				t := rapid.IntRange(0, 3).Draw(rt, "tailtopic")
-				p.Acts = append(p.Acts, c10Act{Client: first, Kind: "subt", Topic: t}, c10Act{Client: first + 1, Kind: "leavet", Topic: t},
-					c10Act{Client: first, Kind: "pub", Topic: t}, c10Act{Client: first, Kind: "mute", Topic: t},
+				t := rapid.IntRange(0, 3).Draw(rt, "tailtopic") % len(p.Sc.Groups) // a group: the same index names the same topic for everybody
+				other := 0 // a session of another user publishes (the publisher's own message counts as read by it)
+				if u == 0 {
+					other = p.Sc.Sessions[0]
+				}
+				p.Acts = append(p.Acts, c10Act{Client: other, Kind: "subt", Topic: t}, c10Act{Client: first, Kind: "subt", Topic: t}, c10Act{Client: first + 1, Kind: "leavet", Topic: t},
+					c10Act{Client: other, Kind: "pub", Topic: t}, c10Act{Client: first, Kind: "mute", Topic: t},
+					c10Act{Client: first, Kind: "wait", Wait: 5}, // past the window in which the state before the mute justifies a frame
 					c10Act{Client: first, Kind: "note", Topic: t}, c10Act{Client: first, Kind: "delmsg", Topic: t}, c10Act{Client: first, Kind: "wait", Wait: 1})
 				break
 			}
@@ -267,6 +272,12 @@ func runC10(t *testing.T, sched simrt.Schedule, prog c10Prog) ([]Violation, RunS
 					if !e1 && !e2 && !chn1 && !chn2 {
 						out = append(out, vio("C10", "presence-to-stranger "+p.What, "%s: client %d (user %d), who has no subscription to %s, got %s", where, c.Idx, c.User.Idx, g, frameSummary(f.Msg)))
 						continue
+					}
+					if p.Topic == "me" && (p.What == "read" || p.What == "recv" || p.What == "del" || p.What == "msg") {
+						simrt.Probe("c10.me_frame_" + p.What)
+						if !p1 && !p2 {
+							simrt.Probe("c10.me_frame_without_P_" + p.What)
+						}
 					}
 					switch p.What {
 					case "on", "off", "ua", "upd", "msg", "read", "recv", "del":
